@@ -81,4 +81,8 @@ PROPS = {
         'level_text': 'PARTIAL. Lean 4 theorems about information flow in the generator model (the session id depends on a stream segment nothing public depends on; no modulo bias) plus obligations over regenerated source facts (no math/rand, no clock, crypto/rand only). The unpredictability of crypto/rand itself is trusted, not proved.',
         'trusted': ['crypto/rand is unpredictable (trusted)', 'oauth2.GenerateVerifier reads 32 bytes from crypto/rand (checked by the differential run)', 'freshness/pairwise distinctness of identifiers used by C04/C05 is a probabilistic assumption (birthday bound over 62^64 / 62^32)'],
     },
+    'C19': {
+        'theorems': ['reconcile_updates_exactly', 'index_sound', 'reconcile_ignores', 'other_namespace_not_indexed', 'refuse_cross_namespace', 'rotation_stable', 'token_request_uses_current', 'secret_key_matches_source'],
+        'trusted': ['controller-runtime client and its fake; the watch machinery that turns Secret events into Reconcile calls', 'the write of ClientSecretConfig is unsynchronised with concurrent checks (see C16 known finding)', 'hook: harness/export/internal__k8s/export.go (build tag verif, added by overlay) sets the unexported namespace/k8sClient fields'],
+    },
 }
